@@ -306,5 +306,7 @@ def run(c, prog):
     C02.rule_tags(a, prog)
     from . import C02_type
     C02_type.run(a, prog)
+    from . import C02_tok
+    C02_tok.run(a, prog)
     C07.run_sanitisers(a, prog)
     c.not_decided += ["equality of decoded values across the two codecs (a pair of runs); follows from C01.arm, C02.type and C06.desc only as far as those clauses reach"]
